@@ -140,8 +140,11 @@ type aDefer struct {
 	// drain loop for the current contiguous run of DeferInLoop statements (when
 	// walking defers in reverse order in endDefer).
 	loopDrainerGenerated bool
-	loopCases            []loopDeferCase
-	stmts                []func(bits Expr)
+	// hasLoopStmt is set once a loop defer (or a drain point of an explicit defer
+	// stack) has been emitted: later defers need a node of their own on the list.
+	hasLoopStmt bool
+	loopCases   []loopDeferCase
+	stmts       []func(bits Expr)
 }
 
 // loopDeferCase represents a defer statement inside a loop.
@@ -390,9 +393,13 @@ func (b Builder) appendDeferStmt(self *aDefer, kind DoAction, typ Type, buildCal
 			b.loopDeferDrainer(self)
 		}
 	})
+	if kind == DeferInLoop {
+		self.hasLoopStmt = true
+	}
 }
 
 func (b Builder) appendLoopDeferDrainer(self *aDefer) {
+	self.hasLoopStmt = true
 	self.stmts = append(self.stmts, func(Expr) {
 		b.loopDeferDrainer(self)
 	})
@@ -468,13 +475,16 @@ free(node)
 */
 
 func (b Builder) saveDeferArgs(self *aDefer, kind DoAction, id Expr, fn Expr, args []Expr) Type {
+	if kind != DeferInLoop && fn != Nil && fn.kind != vkClosure && len(args) == 0 && !self.hasLoopStmt {
+		// Nothing to save.  After a loop defer even such a call gets a node: it is
+		// the barrier at which the drain loop of a later loop defer stops, so that
+		// the earlier loop's calls run after this one (last in, first out).
+		return nil
+	}
 	return b.saveDeferArgsTo(self.argsPtr, kind, id, fn, args)
 }
 
 func (b Builder) saveDeferArgsTo(argsPtr Expr, kind DoAction, id Expr, fn Expr, args []Expr) Type {
-	if kind != DeferInLoop && fn != Nil && fn.kind != vkClosure && len(args) == 0 {
-		return nil
-	}
 	prog := b.Prog
 	offset := 2 // prev + id
 	if fn != Nil && fn.kind == vkClosure {
